@@ -320,7 +320,8 @@ class TrenchWriter(Writer):
 
     def __init__(self, tc_list: TrenchColumn | list[TrenchColumn], dirname: str = 'TRENCH', **param) -> None:
         super().__init__(**param)
-        self.obj_list: list[TrenchColumn] = flatten(listcast(tc_list))
+        # a single column is wrapped (listcast would iterate over its trenches)
+        self.obj_list: list[TrenchColumn] = flatten(tc_list if isinstance(tc_list, list) else [tc_list])
         self.trenches: list[Trench] = [tr for col in self.obj_list for tr in col]
         self.dirname: str = dirname
 
@@ -763,7 +764,7 @@ class UTrenchWriter(TrenchWriter):
 
     def __init__(self, utc_list: UTrenchColumn | list[UTrenchColumn], dirname: str = 'U-TRENCH', **param) -> None:
         super().__init__(tc_list=utc_list, dirname=dirname, **param)
-        self.beds: list[Trench] = [ubed for col in utc_list for ubed in col.trenchbed]
+        self.beds: list[Trench] = [ubed for col in self.obj_list for ubed in col.trenchbed]
 
     def append(self, obj: UTrenchColumn) -> None:
         """Append UTrenchColumn objects.
